@@ -1,0 +1,19 @@
+//go:build verif
+
+package ds
+
+// VerifByteSize exposes the byte counter of the cache. Verification harness only (build tag verif).
+func (s *SortedCache) VerifByteSize() uint64 { return s.byteSize }
+
+// VerifItems returns the cached values in ascending order.
+func (s *SortedCache) VerifItems() [][]byte {
+	var out [][]byte
+	s.tree.Ascend(func(item []byte) bool {
+		out = append(out, item)
+		return true
+	})
+	return out
+}
+
+// VerifMax returns the largest cached value without removing it.
+func (s *SortedCache) VerifMax() ([]byte, bool) { return s.tree.Max() }
